@@ -26,6 +26,7 @@ REAL = z3.RealSort()
 s_len = z3.Function("s_len", STR, INT)
 s_code = z3.Function("s_code", STR, INT)  # injective on literals: makes distinct literals distinct
 
+LITERAL_FACT_HOOKS = []
 _LITS = {}
 _LIT_BY_ID = {}
 _LIT_ORDER = []
@@ -241,6 +242,9 @@ class Obligation:
 
 
 _fresh_counter = itertools.count()
+import os as _os
+
+FRESH_SOLVER_FEASIBILITY = _os.environ.get("PYVC_FRESH_FEAS", "1") == "1"
 
 
 class Ctx:
@@ -315,11 +319,12 @@ class Ctx:
         while n < len(_LIT_ORDER):
             sv = _LIT_ORDER[n]
             t = _LITS[sv]
-            f1 = s_code(t) == n
-            f2 = s_len(t) == len(sv)
-            self.pc.append(f1)
-            self.pc.append(f2)
-            self.solver.add(f1, f2)
+            facts = [s_code(t) == n, s_len(t) == len(sv)]
+            for hook in LITERAL_FACT_HOOKS:
+                facts.extend(hook(t, sv))
+            for f in facts:
+                self.pc.append(f)
+            self.solver.add(*facts)
             n += 1
         self._lits_done = n
 
@@ -349,7 +354,14 @@ class Ctx:
     def _feasible(self, cond):
         if not self.check_feasibility:
             return True
-        r = self.solver.check(cond)
+        if FRESH_SOLVER_FEASIBILITY:
+            s = z3.Solver()
+            s.set("timeout", 3000)
+            s.add(*self.pc)
+            s.add(cond)
+            r = s.check()
+        else:
+            r = self.solver.check(cond)
         if r == z3.unknown:
             self.unknown_branches += 1
             return True
@@ -389,6 +401,26 @@ class Ctx:
             return False
         k = self.choose([c, z3.Not(c)], labels=["T", "F"], site=site)
         return k == 0
+
+    # ---- scopes: index terms / facts produced while evaluating one contract clause are local to it
+    def push_scope(self):
+        self._scopes = getattr(self, "_scopes", [])
+        self._scopes.append((len(self.pc), {r: len(v) for r, v in self.index_terms.items()}, self._dirty))
+        self._inst_done_stack = getattr(self, "_inst_done_stack", [])
+        self._inst_done_stack.append(frozenset(self._inst_done))
+        self.solver.push()
+
+    def pop_scope(self):
+        npc, lens, dirty = self._scopes.pop()
+        del self.pc[npc:]
+        for r in list(self.index_terms):
+            keep = lens.get(r, 0)
+            del self.index_terms[r][keep:]
+        self.solver.pop()
+        # instances recorded for dropped terms may have been dropped with the facts: forget the memo
+        # entries made inside the scope so that they are redone when needed
+        self._inst_done = set(self._inst_done_stack.pop()) if getattr(self, "_inst_done_stack", None) else self._inst_done
+        self._dirty = True
 
     # ---- obligations
     def oblige(self, name, goal, kind="post", site=None, meta=None):
